@@ -1704,6 +1704,19 @@ impl<'a, C: Crypto> TransportRunner<'a, C> {
                     packet
                 );
             }
+            Err(e)
+                if matches!(e.code(), ErrorCode::NoSession)
+                    && !packet.header.plain.is_encrypted() =>
+            {
+                // An unsecured message that belongs to no session we know and does not start
+                // one (a stray acknowledgement, a status report, a late handshake message):
+                // drop it silently. Answering it - the peer's own `SessionNotFound` report
+                // included - would have two nodes answer each other's answers forever.
+                mrp_log!(
+                    "\n>>RCV {}\n      => No valid unsecured session found, dropping",
+                    packet
+                );
+            }
             Err(e) if matches!(e.code(), ErrorCode::NoSession) => {
                 // Per Matter Core spec, when a session-bearing
                 // message arrives for which we have no matching secure session
